@@ -8,7 +8,7 @@ Local Open Scope N_scope.
 Local Open Scope list_scope.
 
 Definition C := Gen_Filter.consts.
-Lemma gen_ok : filter_consts_ok C = true.
+Lemma gen_ok : uid_consts_ok C = true.
 Proof. vm_compute. reflexivity. Qed.
 
 (** for every real uid below 2^32 and every non-empty list of well-formed numerals (any length, any order,
